@@ -574,3 +574,14 @@ def const_tables(ctx: Ctx, fi: FuncInfo) -> dict:
         except Exception:
             pass
     return out
+
+
+def self_field(fi: FuncInfo, name: str) -> S:
+    """the normal form of reading ``self.<name>`` inside fi's class: through the property that simply hands the field out,
+    when the class has one"""
+    from framelint.canon import _trivial_getters
+    if getattr(fi, "cls", None) is not None and name.startswith("_"):
+        g = _trivial_getters(fi.cls).get(name)
+        if g is not None and g != fi.name:
+            return ("a", ("self",), g)
+    return ("a", ("self",), name)
